@@ -62,6 +62,24 @@ func (sm *SeatManager) renewSeatStatus() error {
 	origSeats := sm.getNormalizeSeats(sm.dealer.ID)
 	seats := origSeats
 
+	// With two players left, the waiting players seated behind the second one
+	// are let in for this hand as well (see "Activate the rest of seats" below).
+	// Let them in before deciding whether the hand is heads-up, otherwise three
+	// or more players would be dealt in with heads-up blinds.
+	if sm.getPlayableSeatCount() == 2 {
+		second := false
+		for _, s := range origSeats[1:] {
+			if !second {
+				second = s.IsActive && !s.IsReserved && s.Player != nil
+				continue
+			}
+
+			if !s.IsReserved && s.Player != nil {
+				s.IsActive = true
+			}
+		}
+	}
+
 	if sm.getPlayableSeatCount() == 2 {
 		// dealer is SB as well
 		sm.sb = sm.dealer
